@@ -475,6 +475,21 @@ canon::CLib extract(const Library& lib, const ExtractOptions& opt) {
                 sp.push_back(G.g(p->spine.point_array[k]));
             cc.close_path_vertices += canon::close_pairs(sp);
             {
+                // what the next save will do to this centre line, computed here with the comparison the
+                // documented behaviour rests on (strictly closer than the tolerance, in double arithmetic):
+                // distinguishes the known loss of a vertex through rounding noise from any other loss
+                const double tol_sq = p->spine.tolerance * p->spine.tolerance;
+                std::vector<Vec2> v(p->spine.point_array.items, p->spine.point_array.items + p->spine.point_array.count);
+                for (size_t k = 1; k < v.size();) {
+                    if ((v[k] - v[k - 1]).length_sq() < tol_sq) {
+                        v.erase(v.begin() + k);
+                        cc.strict_tolerance_drops++;
+                    } else {
+                        k++;
+                    }
+                }
+            }
+            {
                 char tb[40];
                 snprintf(tb, sizeof tb, "%.6g", p->spine.tolerance * G.scale);
                 cc.path_tolerances.insert(tb);
